@@ -242,6 +242,14 @@ def edge_coverage(A, g):
             gens = e.generators
             outer = next((x for x in gens if 'self.tasks' in src(x.iter) and 'input_tasks' not in src(x.iter)), None)
             inner = next((x for x in gens if 'input_tasks' in src(x.iter)), None)
+            if outer is None and inner is not None:
+                # the tasks are walked by an enclosing loop, each iteration adds the edges of one task
+                lp = next((p_ for p_ in _parents(n) if isinstance(p_, ast.For) and 'self.tasks' in src(p_.iter) and 'input_tasks' not in src(p_.iter)), None)
+                if lp is not None:
+                    if not (loop_runs_to_end(lp) and loop_unconditional(cfg, lp, n)):
+                        found.append((False, 'the loop over the tasks ends early or skips the edges of a task'))
+                        continue
+                    outer = lp
             if outer is None or inner is None:
                 found.append((False, 'edges are not generated over the tasks and their input_tasks'))
                 continue
@@ -264,6 +272,34 @@ def check_declaration_loop(A, R: Report, rid: str):
     R.check(not bad, rid, 'Chain._process_dependencies: loops', key_of('declaration-loop', len(bad)), 'all tasks and all their declarations are processed',
             f'the loop `for {src(bad[0].target)} in {src(bad[0].iter)[:50]}` can end early (break / return): declarations after that point are neither resolved nor checked, so a missing required input is not reported and supplied inputs stay unbound' if bad else '',
             where=where(fpd, bad[0]) if bad else where(fpd))
+
+
+def check_bound_input(A, R: Report, rid: str):
+    """`input_tasks[K] = tasks[I]` in Chain._process_dependencies: the task bound to an input is the one registered under the very name
+    the input is stored under (I == K on every path) - for a reference by class that is the class's own qualified name, not whatever
+    the short-name search returned."""
+    fpd = A.func('Chain._process_dependencies')
+    tparam = fpd.params[0]
+    stores = [n for n in inl(A, fpd) if isinstance(n, ast.Assign) and len(n.targets) == 1 and isinstance(n.targets[0], ast.Subscript) and isinstance(n.value, ast.Subscript)
+              and src(subst_single_assign(A, fpd, n.value.value)) == tparam]
+    if not stores:
+        R.undecided(rid, 'Chain._process_dependencies: bound task', 'store of the resolved task not recognised', where=where(fpd))
+        return
+    stop_old = A.sym.stop_at
+    A.sym.stop_at = {fi.qualname for fi in A.prog.functions.values() if fi.name in ('slugname', 'get_config', '_expand_tasks', '_find_task_full_name')}
+    try:
+        at = A.sym.terms_at(fpd, None, [x for st in stores for x in (st.targets[0].slice, st.value.slice)])
+    finally:
+        A.sym.stop_at = stop_old
+    for st in stores:
+        ks, is_ = at.get(id(st.targets[0].slice), []), at.get(id(st.value.slice), [])
+        if not ks or not is_ or any(has_opaque(t) for t in ks + is_):
+            R.undecided(rid, 'Chain._process_dependencies: bound task', 'key / index of the bound task could not be evaluated symbolically', where=where(fpd, st))
+            continue
+        same = len(ks) == len(is_) and all(a == b for a, b in zip(ks, is_))
+        R.check(same, rid, f'Chain._process_dependencies: `{src(st)[:60]}`', key_of('bound-task', same), 'the task registered under the input\'s own key',
+                f'the task bound to an input is `{tparam}[{pretty(is_[0])[:80]}]` while the input is stored under `{pretty(ks[0])[:80]}`: for an input referenced by class the short-name search decides, so a missing `price` '
+                'silently binds the unrelated `eu:price` instead of being reported', where=where(fpd, st))
 
 
 def check_resolver_call(A, R: Report, rid: str, rid9=None):
@@ -419,6 +455,8 @@ def run(A, R: Report, thorough: bool):
 
     check_declaration_loop(A, R, 'R08.2')
     R.rule('R08.6', 'the name handed to the resolver is qualified with the declaring config\'s namespace whenever it has one, and resolution is namespace-exact', floor=1)
+    R.rule('R08.10', 'the task bound to a declared input is the one registered under the name the input is stored under', floor=1)
+    check_bound_input(A, R, 'R08.10')
     R.rule('R08.9', 'whether a declared input name is relative to the declaring namespace does not depend on the spelling of the name', floor=1)
     check_resolver_call(A, R, 'R08.6', 'R08.9')
 
